@@ -289,3 +289,59 @@ def is_none_test(test):
         if isinstance(test.ops[0], ast.IsNot):
             return test.left, False
     return None
+
+
+# ------------------------------------------------------------------ shape-robust helpers
+def resolve(fnnode, e, depth=4):
+    """Follow single-assignment local temporaries: name -> its value expression."""
+    n = 0
+    while isinstance(e, ast.Name) and n < depth:
+        d = single_def(fnnode, e.id)
+        if not isinstance(d, ast.AST):
+            break
+        e = d
+        n += 1
+    return e
+
+
+def attr_stores(fn, attr, selfname=None):
+    """[(stmt, value expr or None)] for every store into <self>.<attr> in fn, including tuple targets
+    `self.a, self.b = x, y` (value = matching element) and `self.a, self.b = f()` (value = ('unpack', call, i))."""
+    sn = selfname or fn.self_name
+    out = []
+    for s in walk_no_nested(fn.node):
+        if isinstance(s, ast.Assign):
+            for t in s.targets:
+                if isinstance(t, ast.Attribute) and isinstance(t.value, ast.Name) and (sn is None or t.value.id == sn) and t.attr == attr:
+                    out.append((s, s.value))
+                elif isinstance(t, (ast.Tuple, ast.List)):
+                    for i, e in enumerate(t.elts):
+                        if isinstance(e, ast.Attribute) and isinstance(e.value, ast.Name) and (sn is None or e.value.id == sn) and e.attr == attr:
+                            if isinstance(s.value, (ast.Tuple, ast.List)) and len(s.value.elts) == len(t.elts):
+                                out.append((s, s.value.elts[i]))
+                            else:
+                                out.append((s, ('unpack', s.value, i)))
+        elif isinstance(s, (ast.AugAssign, ast.AnnAssign)) and isinstance(s.target, ast.Attribute) \
+                and isinstance(s.target.value, ast.Name) and (sn is None or s.target.value.id == sn) and s.target.attr == attr:
+            out.append((s, getattr(s, 'value', None)))
+    return out
+
+
+def private_closure(ctx, fn, concrete=None, limit=12):
+    """fn plus the private helpers (leading underscore, same class hierarchy or same module) it calls, transitively."""
+    out, todo = [], [fn]
+    seen = set()
+    while todo and len(out) < limit:
+        f = todo.pop(0)
+        if f.qualname in seen:
+            continue
+        seen.add(f.qualname)
+        out.append(f)
+        for call in [n for n in walk_no_nested(f.node) if isinstance(n, ast.Call)]:
+            for t in ctx.cg.targets(f, call, concrete):
+                if t.kind == 'proj' and not t.how.startswith('decorator') and t.how != 'by method name':
+                    g = t.fn
+                    if g.name.startswith('_') and not g.name.startswith('__') and g.outer is None \
+                            and (g.module is fn.module or (g.cls is not None and fn.cls is not None and (g.cls in fn.cls.mro() or fn.cls in g.cls.mro()))):
+                        todo.append(g)
+    return out
